@@ -84,6 +84,26 @@ fn leaf_faults() -> Vec<(&'static str, E)> {
     ]
 }
 
+/// Static-fault programs (used by C16 for diagnostics of static errors, incl. two-span ones).
+pub fn static_fault_sources() -> Vec<String> {
+    let mut v = Vec::new();
+    for (_, f) in leaf_faults() {
+        let ctxs: Vec<E> = vec![
+            f.clone(),
+            E::Local(vec![Bind { name: "v".into(), params: None, body: num(1) }], b(f.clone())),
+            E::Array(vec![num(1), f.clone()]),
+            E::Object(vec![Member::Field { name: FieldName::Id("a".into()), plus: false, vis: Vis::Default, params: None, body: f.clone() }]),
+            E::If(b(E::False), b(f.clone()), Some(b(num(0)))),
+            E::Func(vec![Param { name: "p".into(), default: Some(f.clone()) }], b(num(1))),
+        ];
+        for c in ctxs {
+            v.push(syntax::print(&c, syntax::MINIMAL));
+            v.push(syntax::print(&c, syntax::NOISY));
+        }
+    }
+    v
+}
+
 fn analyze_kind(o: &Outcome) -> Option<String> {
     match o {
         Outcome::Load { phase, kind } if *phase == "analyze" => Some(kind.clone()),
